@@ -2,7 +2,7 @@
    of_compute_blocking_struct below is generated from /repo's applis/eperftool/blocking_struct.c by
    tools/c2gallina.py on every run (UINT32 values in Z, binary64 through Flocq; the printf is skipped). *)
 From Coq Require Import ZArith.
-From OFV Require Import CSem Blocking BlockingProofs.
+From OFV Require Import CSem Blocking BlockingProofs BlockingFull.
 From OFV.gen Require Import GenBlocking.
 Local Open Scope Z_scope.
 
@@ -15,21 +15,19 @@ Theorem partition_exact : forall B L E, 1 <= B -> 1 <= L -> 1 <= E ->
   p_I p * p_A_large p + (p_N p - p_I p) * p_A_small p = p_T p.
 Proof. exact partition_exact_proof. Qed.
 
-(* float layer: the C function, evaluated in binary64, returns exactly these values.
-   Full statement wanted:  of_compute_blocking_struct B L E = Some (N, A_large, A_small, I).
-   Proved part (hence _partial): for all 32-bit B, L, E >= 1, whenever the function returns (none of
-   its double -> UINT32 conversions is undefined) nb_blocks, A_large and A_small are the RFC values.
-   Missing: that the last conversion is always defined and that I = T mod N (needs the error
-   analysis of RN(RN(A - A_small) * N)); that part is covered by the correspondence only. *)
-Theorem partition_float_layer_partial : forall B L E n al asm i,
+(* float layer: the C function, evaluated in binary64 (Flocq), returns exactly these values for ALL
+   32-bit B, L, E >= 1: none of its five double -> UINT32 conversions is undefined, N, A_large and
+   A_small are the exact ceilings/floor, the subtraction A - A_small is exact (Sterbenz), the product
+   with N is within 2^-21 of T mod N, and double_to_closest_int selects that integer. *)
+Theorem partition_float_layer : forall B L E,
   1 <= B < 2^32 -> 1 <= L < 2^32 -> 1 <= E < 2^32 ->
-  of_compute_blocking_struct B L E = Some (n, al, asm, i) ->
-  let p := rfc5052 B L E in n = p_N p /\ al = p_A_large p /\ asm = p_A_small p.
-Proof. exact blocking_N_A_proof. Qed.
+  let p := rfc5052 B L E in
+  of_compute_blocking_struct B L E = Some (p_N p, p_A_large p, p_A_small p, p_I p).
+Proof. exact blocking_full. Qed.
 
 (* non-vacuity: the function does return on concrete inputs, including N >= 2^31 *)
 Example blk_1 : of_compute_blocking_struct 10 1000 7 = Some (15, 10, 9, 8).  Proof. vm_compute. reflexivity. Qed.
 Example blk_2 : of_compute_blocking_struct 1 4294967294 1 = Some (4294967294, 1, 1, 0).  Proof. vm_compute. reflexivity. Qed.
 
 Print Assumptions partition_exact.
-Print Assumptions partition_float_layer_partial.
+Print Assumptions partition_float_layer.
